@@ -85,6 +85,19 @@ def replay(model, obligation):
     if sid in c2.orphaned_request_ids or c2.in_flight != 0 or list(c2.request_ids).count(sid) != free_before + 1:
         fails.append('late response of orphaned stream %d: orphan set %r, in_flight %d (expected 0), id %d is %d times in the free list (expected once)'
                      % (sid, sorted(c2.orphaned_request_ids), c2.in_flight, sid, list(c2.request_ids).count(sid)))
+    # a response for a stream that is neither registered nor orphaned (the request's time-out has taken its handler away and has not yet
+    # recorded the stream as orphaned): the frame is dropped, the in-flight count is not this frame's to give back
+    c3 = _conn(cl)
+    c3.msg_received, c3.is_defunct, c3.is_closed = False, False, False
+    sid = c3.get_request_id()
+    c3.in_flight = 2
+    try:
+        c3.process_msg(_Frame(version=4, flags=0, stream=sid, opcode=8, body_offset=9, end_pos=9), b'')
+    except Exception as e:
+        fails.append('response for an unregistered stream raised %r' % (e,))
+    if c3.in_flight != 2:
+        fails.append('response for stream %d, which is neither registered nor orphaned, with 2 requests in flight: in_flight is now %d (expected 2: the slot belongs to the '
+                     'request that is being timed out and is released when its orphaned stream is answered or the connection ends)' % (sid, c3.in_flight))
     return {'reproduced': bool(fails), 'detail': '; '.join(fails[:3]) or 'no disagreement'}
 
 
